@@ -166,7 +166,7 @@ func hCommitR(K int, withSync bool, reads int) {
 
 func VerifHarness_C07_Conc_Commit2() { hCommit(2, false) }
 
-func VerifHarness_C07_Conc_Commit3_Thorough() {
+func VerifHarness_C07_Conc_Commit3_Deep() {
 	sym.MaxPreempt(2)
 	hCommit(3, true)
 }
@@ -175,7 +175,7 @@ func VerifHarness_C07_Conc_Commit2Sync_Thorough() { hCommit(2, true) }
 
 func VerifHarness_C06_Conc_Atomicity() { hCommitR(2, false, 1) }
 
-func VerifHarness_C06_Conc_AtomicitySync_Thorough() {
+func VerifHarness_C06_Conc_AtomicitySync_Deep() {
 	sym.MaxPreempt(2)
 	hCommitR(2, true, 2)
 }
